@@ -84,7 +84,8 @@ def run(chk, tier):
     ]
     vars_ = []
     for (name, op, cpos, cval, text), c in zip(shapes, g):
-        shape = c.op == op and c.args[cpos].op == "const"
+        # the backwards counter may be a signed or an unsigned integer: `> 3` is slt resp. ult with the constant on the left
+        shape = (c.op == op or (name == "NotMonotonic" and c.op == "ult")) and c.args[cpos].op == "const"
         okg = shape and c.args[cpos].aux == cval
         v = c.args[1 - cpos] if shape else None
         okg = okg and v is not None and v.op in ("sym", "rng")
